@@ -64,26 +64,8 @@ def observers(fn_node: ast.FunctionDef, param: str):
     return out
 
 
-def run(P: Program, rep: Report):
-    rep.not_decided += ["whether the outer delimiters are a *matching* pair (`{a} # {b}` is treated as one pair: no brace matching is performed)",
-                        "re-parse of the enclosed text (see C05)"]
-    enc = P.module("middlewares.enclosing")
-    rcls = P.cls("middlewares.enclosing", "RemoveEnclosingMiddleware")
-    acls = P.cls("middlewares.enclosing", "AddEnclosingMiddleware")
+def strip_table(P: Program, rep: Report, rule: str):
     strip_f = P.func("middlewares.enclosing", "RemoveEnclosingMiddleware._strip_enclosing")
-    encl_f = P.func("middlewares.enclosing", "AddEnclosingMiddleware._enclose")
-
-    rep.rule("C10.R0", "abstraction discipline: the two value functions inspect the value only through strip / startswith / "
-                       "endswith / len / constant slices / digit tests / formatting, which are uniform on the explored class strings")
-    for f, param in ((strip_f, "value"), (encl_f, "value")):
-        obs = observers(f.node, param)
-        bad = sorted(set(obs) - ALLOWED_OBSERVERS)
-        rep.check(not bad, "C10.R0", f"observers:{f.name}", f.loc,
-                  f"{f.name} inspects the value through {bad}: the class-string abstraction does not cover it", note=f"observers {sorted(set(obs))}")
-
-    rep.rule("C10.R2", "strip table: for every class string over { } \" letter digit space up to length 4, removal yields the text "
-                       "without exactly one outer {...} or \"...\" pair formed by two distinct positions (nothing otherwise) and "
-                       "records which; a lone delimiter is not a pair")
     L = 5 if rep.tier == "thorough" else 4
     strings = ["".join(t) for n in range(0, L + 1) for t in itertools.product(ALPHABET, repeat=n)]
     bad = {}
@@ -106,11 +88,37 @@ def run(P: Program, rep: Report):
                 cls = "lone-delimiter" if len(s.strip()) == 1 else ("pair" if want[1] != "no-enclosing" else "no-pair")
                 bad.setdefault(cls, (s, f"_strip_enclosing({s!r}) = {v!r}, exactly-one-layer rule gives {want!r}"))
     rep.count("strip_class_strings", n)
-    rep.require_count("C10.R2", "class strings", n, 1000)
+    rep.require_count(rule, "class strings", n, 1000)
     for k, (s, msg) in sorted(bad.items()):
-        rep.fail("C10.R2", f"strip-table:{k}", strip_f.loc, msg)
+        rep.fail(rule, f"strip-table:{k}", strip_f.loc, msg)
     if not bad:
-        rep.ok("C10.R2", f"strip-table:{n}-class-strings", strip_f.loc)
+        rep.ok(rule, f"strip-table:{n}-class-strings", strip_f.loc)
+
+
+
+def run(P: Program, rep: Report):
+    rep.not_decided += ["whether the outer delimiters are a *matching* pair (`{a} # {b}` is treated as one pair: no brace matching is performed)",
+                        "re-parse of the enclosed text (see C05)"]
+    enc = P.module("middlewares.enclosing")
+    rcls = P.cls("middlewares.enclosing", "RemoveEnclosingMiddleware")
+    acls = P.cls("middlewares.enclosing", "AddEnclosingMiddleware")
+    strip_f = P.func("middlewares.enclosing", "RemoveEnclosingMiddleware._strip_enclosing")
+    encl_f = P.func("middlewares.enclosing", "AddEnclosingMiddleware._enclose")
+
+    rep.rule("C10.R0", "abstraction discipline: the two value functions inspect the value only through strip / startswith / "
+                       "endswith / len / constant slices / digit tests / formatting, which are uniform on the explored class strings")
+    for f, param in ((strip_f, "value"), (encl_f, "value")):
+        obs = observers(f.node, param)
+        bad = sorted(set(obs) - ALLOWED_OBSERVERS)
+        rep.check(not bad, "C10.R0", f"observers:{f.name}", f.loc,
+                  f"{f.name} inspects the value through {bad}: the class-string abstraction does not cover it", note=f"observers {sorted(set(obs))}")
+
+    rep.rule("C10.R2", "strip table: for every class string over { } \" letter digit space up to length 4, removal yields the text "
+                       "without exactly one outer {...} or \"...\" pair formed by two distinct positions (nothing otherwise) and "
+                       "records which; a lone delimiter is not a pair")
+    strip_table(P, rep, "C10.R2")
+    L = 5 if rep.tier == "thorough" else 4
+    strings = ["".join(t) for n in range(0, L + 1) for t in itertools.product(ALPHABET, repeat=n)]
 
     rep.rule("C10.R3", "enclose table: over (reuse, enclose_integers, default, recorded enclosing, numeric-field flag, value kind "
                        "incl. Python int): a recorded enclosing wins when reuse is on; otherwise an integer value of a numeric "
@@ -219,6 +227,26 @@ def run(P: Program, rep: Report):
             else:
                 rep.check(v[0] == want and v[1] == "{1990}", "C10.R4", c, acls.loc,
                           f"AddEnclosing(enclose_integers={ei}) turns {key}={val!r} into {v[0]!r} (expected {want!r}) and @string 1990 into {v[1]!r} (expected '{{1990}}')")
+    # a field without a recorded enclosing (added after parsing) gets the default, whatever its neighbours recorded
+    def partial(ctx):
+        it = driver_interp(P, ctx, "middlewares.enclosing")
+        mk = lambda c, *a, **k: new_obj(it, P, "model", c, *a, **k)
+        e = mk("Entry", entry_type="a", key="k", start_line=0, raw="r", fields=AList([
+            mk("Field", key="title", value="T", start_line=1), mk("Field", key="year", value="2019", start_line=2),
+            mk("Field", key="note", value="see x", start_line=3), mk("Field", key="isbn", value="1", start_line=4)]))
+        e.attrs["_parser_metadata"].items["removed_enclosing"] = ADict({"title": '"', "year": "no-enclosing"})
+        lib = new_obj(it, P, "library", "Library")
+        call(it, lib, "add", e)
+        try:
+            ad = it.construct(acls, [], {"reuse_previous_enclosing": True, "enclose_integers": True, "default_enclosing": "{"})
+            out = call(it, ad, "transform", lib)
+            return [it.get_attr(f, "value") for f in it.iterate(it.get_attr(it.get_attr(out, "entries").items[0], "fields"))]
+        except Raised as r:
+            return r.cls_name()
+    for ctx, v in explore(partial, 20):
+        rep.check(v == ['"T"', "2019", "{see x}", "{1}"], "C10.R4", "call-site:partial-metadata", acls.loc,
+                  f"AddEnclosing(reuse) with recorded enclosings for title (quote) and year (none) only gives {v!r}; "
+                  f"fields without a record must get the default: ['\"T\"', '2019', '{{see x}}', '{{1}}']")
     for bad_default in ("no-enclosing", "(", ""):
         def one(ctx):
             it = driver_interp(P, ctx, "middlewares.enclosing")
